@@ -214,9 +214,7 @@ func (c *c09Run) outcome(w uint64, o string) {
 	c.wMu.Lock()
 	c.waiters[w].Outs = append(c.waiters[w].Outs, o)
 	c.wMu.Unlock()
-	c.logMu.Lock()
-	c.lastAct = time.Now()
-	c.logMu.Unlock()
+	c.log(fmt.Sprintf("(ObsOut %s %s)", coqN(w), o)) // position of the arrival in the run
 	c.emit("out", map[string]interface{}{"w": w, "o": o})
 }
 
@@ -308,12 +306,14 @@ func (c *c09Run) step(s c09Step) {
 		c.logMu.Lock()
 		c.ids[h] = uint64(len(c.hashes))
 		c.logMu.Unlock()
+		c.resetExpect(n, h)
+		c.log(fmt.Sprintf("(Ev (Sent %s %s))", coqN(uint64(len(c.hashes))), coqN(n)))
+		// the goroutine started by waitForTxn registers the client's own waiter
+		c.waitRegistered(n, h, nil)
 		w := c.nextW
 		c.nextW++
 		c.intern = append(c.intern, w)
-		c.resetExpect(n, h)
-		c.log(fmt.Sprintf("(Ev (Sent %s %s))", coqN(uint64(len(c.hashes))), coqN(n)))
-		c.waitRegistered(n, h, nil)
+		c.log(fmt.Sprintf("(Ev (InternalWatch %s %s))", coqN(uint64(len(c.hashes))), coqN(n)))
 		c.quiesce()
 	case "watch":
 		h := c.txHash(s.H)
